@@ -192,7 +192,7 @@ impl Property for P {
     }
     fn cases(tier: Tier) -> u64 {
         match tier {
-            Tier::Quick => 200_000,
+            Tier::Quick => 800_000,
             Tier::Thorough => 10_000_000,
         }
     }
